@@ -175,3 +175,463 @@ Proof.
   rewrite bfs_all_cons. cbn [flat_map]. eapply Permutation_trans; [apply fuids_step|].
   apply Permutation_app_head. exact IH.
 Qed.
+
+(* ---- mapped trees ---- *)
+
+Definition cpf (phi : ref -> ref) (g : ref -> props -> props) : ref -> props -> ref * props :=
+  fun x ps => (phi x, g x ps).
+
+Lemma tmap_cpf phi g r n c ps kids :
+  tmap (cpf phi g) (Node r n c ps kids) = Node (phi r) n c (g r ps) (List.map (tmap (cpf phi g)) kids).
+Proof. rewrite tmap_eq. reflexivity. Qed.
+
+Lemma troot_tmap phi g t : troot (tmap (cpf phi g) t) = phi (troot t).
+Proof. destruct t. rewrite tmap_cpf. reflexivity. Qed.
+
+Lemma tprops_tmap phi g t : tprops (tmap (cpf phi g) t) = g (troot t) (tprops t).
+Proof. destruct t. rewrite tmap_cpf. reflexivity. Qed.
+
+Lemma roots_tmap phi g ts : List.map troot (List.map (tmap (cpf phi g)) ts) = List.map phi (List.map troot ts).
+Proof. rewrite !map_map. apply map_ext. intros t. apply troot_tmap. Qed.
+
+Lemma tmap_ext_in f1 f2 t :
+  (forall x ps, In x (trefs t) -> f1 x ps = f2 x ps) -> tmap f1 t = tmap f2 t.
+Proof.
+  induction t as [r n c ps kids IH] using tree_ind'. intros H. rewrite !tmap_eq.
+  rewrite (H r ps) by (rewrite trefs_eq; left; reflexivity). destruct (f2 r ps) as [x' ps']. f_equal.
+  apply map_ext_in. intros k Hk. rewrite Forall_forall in IH. apply IH; [exact Hk|].
+  intros x ps0 Hx. apply H. rewrite trefs_eq. right. apply In_frefs. exists k. split; assumption.
+Qed.
+
+Lemma tmap_tmap f1 f2 t :
+  tmap f2 (tmap f1 t) = tmap (fun x ps => let '(x', ps') := f1 x ps in f2 x' ps') t.
+Proof.
+  induction t as [r n c ps kids IH] using tree_ind'. rewrite (tmap_eq f1), (tmap_eq (fun x ps => _)).
+  destruct (f1 r ps) as [x' ps']. rewrite tmap_eq. destruct (f2 x' ps') as [x'' ps'']. f_equal.
+  rewrite map_map. apply map_ext_in. intros k Hk. rewrite Forall_forall in IH. apply IH. exact Hk.
+Qed.
+
+Lemma trefs_tmap_from phi g ks :
+  Forall (fun k => trefs (tmap (cpf phi g) k) = List.map phi (trefs k)) ks ->
+  frefs (List.map (tmap (cpf phi g)) ks) = List.map phi (frefs ks).
+Proof.
+  induction 1 as [|k ks Hk _ IH]; [reflexivity|].
+  cbn [List.map]. rewrite !frefs_cons, map_app, Hk, IH. reflexivity.
+Qed.
+
+Lemma trefs_tmap phi g t : trefs (tmap (cpf phi g) t) = List.map phi (trefs t).
+Proof.
+  induction t as [r n c ps kids IH] using tree_ind'. rewrite tmap_cpf, !trefs_eq. cbn [List.map]. f_equal.
+  apply trefs_tmap_from. exact IH.
+Qed.
+
+Lemma frefs_tmap phi g ts : frefs (List.map (tmap (cpf phi g)) ts) = List.map phi (frefs ts).
+Proof. apply trefs_tmap_from. apply Forall_forall. intros t _. apply trefs_tmap. Qed.
+
+(* post-processing the properties of a mapped tree post-processes the entries *)
+Definition post_entry (h : props -> props) (yi : ref * inst) : ref * inst :=
+  (fst yi, set_props (snd yi) (h (i_props (snd yi)))).
+
+Lemma tflat_tmap_post phi g h t : forall p,
+  tflat p (tmap (cpf phi (fun x ps => h (g x ps))) t) = List.map (post_entry h) (tflat p (tmap (cpf phi g) t)).
+Proof.
+  induction t as [r n c ps kids IH] using tree_ind'. intros p. rewrite !tmap_cpf, !tflat_eq.
+  cbn [List.map]. f_equal.
+  - unfold post_entry, set_props. cbn. rewrite !roots_tmap. reflexivity.
+  - clear p. induction IH as [|k ks Hk _ IHk]; [reflexivity|].
+    cbn [List.map flat_map]. rewrite map_app, Hk, IHk. reflexivity.
+Qed.
+
+Lemma fflat_tmap_post phi g h ts p :
+  flat_map (tflat p) (List.map (tmap (cpf phi (fun x ps => h (g x ps)))) ts)
+  = List.map (post_entry h) (flat_map (tflat p) (List.map (tmap (cpf phi g)) ts)).
+Proof.
+  induction ts as [|t ts IH]; [reflexivity|].
+  cbn [List.map flat_map]. rewrite map_app, tflat_tmap_post, IH. reflexivity.
+Qed.
+
+(* ---- values held in a forest, through its flattening ---- *)
+
+Lemma tpvals_eq r n c ps kids : tpvals (Node r n c ps kids) = List.map snd ps ++ fpvals kids.
+Proof. reflexivity. Qed.
+
+Lemma In_tpvals v t : forall p,
+  In v (tpvals t) <-> exists x i, In (x, i) (tflat p t) /\ In v (List.map snd (i_props i)).
+Proof.
+  induction t as [r n c ps kids IH] using tree_ind'. intros p. rewrite Forall_forall in IH.
+  rewrite tpvals_eq, in_app_iff. split.
+  - intros [H|H].
+    + exists r, (mkInst p (List.map troot kids) n c ps). split; [rewrite tflat_eq; left; reflexivity|exact H].
+    + unfold fpvals in H. apply in_flat_map in H. destruct H as [k [Hk Hv]].
+      apply (IH k Hk r) in Hv. destruct Hv as [x [i [Hin Hvi]]]. exists x, i. split; [|exact Hvi].
+      rewrite tflat_eq. right. apply in_flat_map. exists k. split; assumption.
+  - intros [x [i [Hin Hvi]]]. rewrite tflat_eq in Hin. destruct Hin as [Hin|Hin].
+    + inversion Hin; subst. left. exact Hvi.
+    + right. apply in_flat_map in Hin. destruct Hin as [k [Hk Hin]]. unfold fpvals. apply in_flat_map.
+      exists k. split; [exact Hk|]. apply (IH k Hk r). exists x, i. split; assumption.
+Qed.
+
+Lemma In_fpvals v ts p :
+  In v (fpvals ts) <-> exists x i, In (x, i) (flat_map (tflat p) ts) /\ In v (List.map snd (i_props i)).
+Proof.
+  unfold fpvals. rewrite in_flat_map. split.
+  - intros [t [Ht Hv]]. apply (In_tpvals v t p) in Hv. destruct Hv as [x [i [Hin Hvi]]].
+    exists x, i. split; [apply In_fflat; exists t; split; assumption|exact Hvi].
+  - intros [x [i [Hin Hvi]]]. apply In_fflat in Hin. destruct Hin as [t [Ht Hin]]. exists t. split; [exact Ht|].
+    apply (In_tpvals v t p). exists x, i. split; assumption.
+Qed.
+
+Lemma fpvals_app a b : fpvals (a ++ b) = fpvals a ++ fpvals b.
+Proof. unfold fpvals. apply flat_map_app. Qed.
+
+(* ---- numbering of the breadth-first enumeration ---- *)
+
+Fixpoint nseq (nr : N) (n : nat) : list N :=
+  match n with O => [] | S n' => nr :: nseq (nr + 1) n' end.
+
+Lemma In_nseq x n : forall nr, In x (nseq nr n) <-> nr <= x < nr + N.of_nat n.
+Proof.
+  induction n as [|n IH]; intros nr; cbn [nseq In].
+  - split; [intros []|lia].
+  - rewrite IH. lia.
+Qed.
+
+Lemma NoDup_nseq n : forall nr, NoDup (nseq nr n).
+Proof.
+  induction n as [|n IH]; intros nr; cbn [nseq]; constructor; [|apply IH].
+  rewrite In_nseq. lia.
+Qed.
+
+Lemma length_nseq n : forall nr, length (nseq nr n) = n.
+Proof. induction n as [|n IH]; intros nr; cbn [nseq length]; [reflexivity|now rewrite IH]. Qed.
+
+Fixpoint numbered (phi : ref -> ref) (nr : N) (L : list tree) : Prop :=
+  match L with [] => True | t :: L' => phi (troot t) = nr /\ numbered phi (nr + 1) L' end.
+
+Lemma numbered_map phi L : forall nr, numbered phi nr L -> List.map phi (List.map troot L) = nseq nr (length L).
+Proof.
+  induction L as [|t L IH]; intros nr H; [reflexivity|]. destruct H as [H1 H2].
+  cbn [List.map length nseq]. rewrite H1, (IH _ H2). reflexivity.
+Qed.
+
+Lemma numbered_app phi a b : forall nr,
+  numbered phi nr (a ++ b) -> numbered phi nr a /\ numbered phi (nr + N.of_nat (length a)) b.
+Proof.
+  induction a as [|t a IH]; intros nr H; cbn [app length] in *.
+  - split; [exact I|]. replace (nr + N.of_nat 0) with nr by lia. exact H.
+  - destruct H as [H1 H2]. destruct (IH _ H2) as [H3 H4]. split; [split; assumption|].
+    replace (nr + N.of_nat (S (length a))) with (nr + 1 + N.of_nat (length a)) by lia. exact H4.
+Qed.
+
+Lemma numbered_range phi L : forall nr t, numbered phi nr L -> In t L ->
+  nr <= phi (troot t) < nr + N.of_nat (length L).
+Proof.
+  intros nr t H Hin. pose proof (numbered_map phi L nr H) as E.
+  apply (In_nseq (phi (troot t)) (length L) nr). rewrite <- E. apply in_map. apply in_map. exact Hin.
+Qed.
+
+Lemma numbered_ext phi phi' L : forall nr,
+  (forall t, In t L -> phi (troot t) = phi' (troot t)) -> numbered phi nr L -> numbered phi' nr L.
+Proof.
+  induction L as [|t L IH]; intros nr He H; [exact I|]. destruct H as [H1 H2]. split.
+  - rewrite <- He by (left; reflexivity). exact H1.
+  - apply IH; [|exact H2]. intros t' Ht'. apply He. right. exact Ht'.
+Qed.
+
+(* [phi] is injective on the enumerated roots *)
+Lemma numbered_inj phi L : forall nr t1 t2, numbered phi nr L -> NoDup (List.map troot L) ->
+  In t1 L -> In t2 L -> phi (troot t1) = phi (troot t2) -> troot t1 = troot t2.
+Proof.
+  induction L as [|t L IH]; intros nr t1 t2 H Hnd H1 H2 E; [destruct H1|].
+  destruct H as [Ha Hb]. cbn [List.map] in Hnd. inversion Hnd as [|a l Hn Hnd']; subst a l.
+  destruct H1 as [H1|H1]; destruct H2 as [H2|H2].
+  - congruence.
+  - subst t1. pose proof (numbered_range _ _ _ _ Hb H2). lia.
+  - subst t2. pose proof (numbered_range _ _ _ _ Hb H1). lia.
+  - eapply IH; eassumption.
+Qed.
+
+Definition phi_of (rw : map ref) : ref -> ref := fun x => match lookup x rw with Some n => n | None => x end.
+
+Lemma alloc_refs_spec L : forall nr rw nr',
+  NoDup (List.map troot L) -> alloc_refs nr L = (rw, nr') ->
+  numbered (phi_of rw) nr L /\ nr' = nr + N.of_nat (length L) /\
+  (forall o, ~ In o (List.map troot L) -> lookup o rw = None) /\
+  (forall t, In t L -> lookup (troot t) rw = Some (phi_of rw (troot t))).
+Proof.
+  induction L as [|t L IH]; intros nr rw nr' Hnd H; cbn [alloc_refs] in H.
+  - inversion H; subst. cbn [length]. split; [exact I|]. split; [lia|]. split; [reflexivity|intros t []].
+  - destruct (alloc_refs (nr + 1) L) as [m nr1] eqn:E. inversion H; subst rw nr'. clear H.
+    cbn [List.map] in Hnd. inversion Hnd as [|a l Hn Hnd']; subst a l.
+    destruct (IH _ _ _ Hnd' E) as [H1 [H2 [H3 H4]]].
+    assert (Hroot : phi_of (upd (troot t) nr m) (troot t) = nr).
+    { unfold phi_of. rewrite lookup_upd_eq. reflexivity. }
+    assert (Hother : forall t', In t' L -> phi_of (upd (troot t) nr m) (troot t') = phi_of m (troot t')).
+    { intros t' Ht'. unfold phi_of. rewrite lookup_upd_neq; [reflexivity|].
+      intros Heq. apply Hn. rewrite <- Heq. apply in_map. exact Ht'. }
+    repeat split.
+    + exact Hroot.
+    + apply (numbered_ext (phi_of m)); [intros t' Ht'; symmetry; apply Hother; exact Ht'|exact H1].
+    + cbn [length]. lia.
+    + intros o Ho. cbn [List.map In] in Ho. rewrite lookup_upd_neq by (intros ->; apply Ho; left; reflexivity).
+      apply H3. intros Hin. apply Ho. right. exact Hin.
+    + intros t' [Ht'|Ht'].
+      * subst t'. rewrite Hroot. apply lookup_upd_eq.
+      * rewrite Hother by exact Ht'. rewrite lookup_upd_neq; [apply H4; exact Ht'|].
+        intros Heq. apply Hn. rewrite <- Heq. apply in_map. exact Ht'.
+Qed.
+
+(* the enumeration of a list of trees starts with the trees themselves *)
+Lemma bfs_all_app a : forall b, bfs_all (a ++ b) = a ++ bfs_all (b ++ flat_map tkids a).
+Proof.
+  induction a as [|t a IH]; intros b; cbn [app flat_map]; [now rewrite app_nil_r|].
+  rewrite bfs_all_cons, <- app_assoc, IH, <- app_assoc. reflexivity.
+Qed.
+
+Lemma bfs_all_prefix a : exists rest, bfs_all a = a ++ rest.
+Proof. exists (bfs_all (flat_map tkids a)). rewrite <- (app_nil_r a) at 1. rewrite bfs_all_app. reflexivity. Qed.
+
+Lemma numbered_roots phi nr ts :
+  numbered phi nr (bfs_all ts) -> List.map phi (List.map troot ts) = nseq nr (length ts).
+Proof.
+  destruct (bfs_all_prefix ts) as [rest E]. rewrite E. intros H.
+  apply numbered_app in H. apply numbered_map. exact (proj1 H).
+Qed.
+
+(* ---- the UniqueId plan along the enumeration ---- *)
+
+Fixpoint Plan (psi : ref -> option N) (used : list N) (nu nr : N) (L : list tree) (nu' : N) : Prop :=
+  match L with
+  | [] => nu' = nu
+  | t :: L' =>
+      match get_uid (props_of_list (tprops t)) with
+      | Some u => if mem u used then psi nr = Some nu /\ Plan psi (sadd nu used) (nu + 1) (nr + 1) L' nu'
+                  else psi nr = None /\ Plan psi (sadd u used) nu (nr + 1) L' nu'
+      | None => psi nr = None /\ Plan psi used nu (nr + 1) L' nu'
+      end
+  end.
+
+Lemma Plan_used_ext psi L : forall used used' nu nr nu',
+  (forall u, mem u used = mem u used') -> Plan psi used nu nr L nu' -> Plan psi used' nu nr L nu'.
+Proof.
+  induction L as [|t L IH]; intros used used' nu nr nu' He H; [exact H|]. cbn [Plan] in *.
+  destruct (get_uid (props_of_list (tprops t))) as [u|].
+  - rewrite <- He. destruct (mem u used).
+    + destruct H as [H1 H2]. split; [exact H1|]. eapply IH; [|exact H2].
+      intros u0. rewrite !mem_sadd, He. reflexivity.
+    + destruct H as [H1 H2]. split; [exact H1|]. eapply IH; [|exact H2].
+      intros u0. rewrite !mem_sadd, He. reflexivity.
+  - destruct H as [H1 H2]. split; [exact H1|]. eapply IH; eassumption.
+Qed.
+
+Lemma Plan_psi_ext psi psi' L : forall used nu nr nu',
+  (forall n, nr <= n -> psi n = psi' n) -> Plan psi used nu nr L nu' -> Plan psi' used nu nr L nu'.
+Proof.
+  induction L as [|t L IH]; intros used nu nr nu' He H; [exact H|]. cbn [Plan] in *.
+  assert (He' : forall n, nr + 1 <= n -> psi n = psi' n) by (intros n Hn; apply He; lia).
+  rewrite <- (He nr) by lia.
+  destruct (get_uid (props_of_list (tprops t))) as [u|]; [destruct (mem u used)|];
+    (destruct H as [H1 H2]; split; [exact H1|]; eapply IH; eassumption).
+Qed.
+
+Lemma Plan_mono psi L : forall used nu nr nu', Plan psi used nu nr L nu' -> nu <= nu'.
+Proof.
+  induction L as [|t L IH]; intros used nu nr nu' H; cbn [Plan] in H; [lia|].
+  destruct (get_uid (props_of_list (tprops t))) as [u|]; [destruct (mem u used)|];
+    destruct H as [_ H2]; apply IH in H2; lia.
+Qed.
+
+Lemma get_uid_vmap f ps :
+  (forall v, match v with PUid _ => f v = v | _ => match f v with PUid _ => False | _ => True end end) ->
+  get_uid (vmap f ps) = get_uid ps.
+Proof.
+  intros Hf. unfold get_uid. rewrite lookup_vmap. destruct (lookup UIDKEY ps) as [v|]; [|reflexivity].
+  cbn [option_map]. pose proof (Hf v) as H. destruct v as [r|u|o].
+  - destruct (f (PRef r)); [reflexivity|destruct H|reflexivity].
+  - rewrite H. reflexivity.
+  - destruct (f (POther o)); [reflexivity|destruct H|reflexivity].
+Qed.
+
+Lemma clone_val_uidsafe rw ex v :
+  match v with PUid _ => clone_val rw ex v = v | _ => match clone_val rw ex v with PUid _ => False | _ => True end end.
+Proof.
+  destruct v as [r|u|o]; cbn [clone_val]; [|reflexivity|exact I].
+  destruct (lookup r rw); [exact I|]. destruct (mem r ex); exact I.
+Qed.
+
+Lemma get_uid_upd u ps : get_uid (upd UIDKEY (PUid u) ps) = Some u.
+Proof. unfold get_uid. rewrite lookup_upd_eq. reflexivity. Qed.
+
+Lemma settle_keys nodes : forall used nu asg nu' n,
+  settle used nu nodes = (asg, nu') -> ~ In n (List.map troot nodes) -> lookup n asg = None.
+Proof.
+  induction nodes as [|t nodes IH]; intros used nu asg nu' n H Hn; cbn [settle] in H.
+  - inversion H; subst. reflexivity.
+  - cbn [List.map In] in Hn. destruct (get_uid (tprops t)) as [u|].
+    + destruct (mem u used).
+      * destruct (settle (sadd nu used) (nu + 1) nodes) as [asg1 nu1] eqn:E. inversion H; subst asg nu'.
+        rewrite lookup_upd_neq by (intros ->; apply Hn; left; reflexivity).
+        eapply IH; [exact E|]. intros Hin. apply Hn. right. exact Hin.
+      * eapply IH; [exact H|]. intros Hin. apply Hn. right. exact Hin.
+    + eapply IH; [exact H|]. intros Hin. apply Hn. right. exact Hin.
+Qed.
+
+(* the abstract [settle] over the copies follows the plan *)
+Lemma settle_Plan phi g L : forall used nu nr asg nu',
+  (forall x ps, get_uid (g x ps) = get_uid (props_of_list ps)) ->
+  numbered phi nr L ->
+  settle used nu (List.map (tmap (cpf phi g)) L) = (asg, nu') ->
+  Plan (fun n => lookup n asg) used nu nr L nu'.
+Proof.
+  induction L as [|t L IH]; intros used nu nr asg nu' Hg Hnum H; cbn [List.map settle] in H.
+  - inversion H; subst. reflexivity.
+  - destruct Hnum as [Hn1 Hn2]. cbn [Plan]. rewrite tprops_tmap, Hg, troot_tmap, Hn1 in H.
+    assert (Hfresh : forall asg1 used1 nu1, settle used1 nu1 (List.map (tmap (cpf phi g)) L) = (asg1, nu') ->
+                     lookup nr asg1 = None).
+    { intros asg1 used1 nu1 E. eapply settle_keys; [exact E|]. rewrite roots_tmap. intros Hin.
+      apply in_map_iff in Hin. destruct Hin as [x [Hx Hin]]. apply in_map_iff in Hin. destruct Hin as [t' [Ht' Hin]].
+      subst x. pose proof (numbered_range _ _ _ _ Hn2 Hin). lia. }
+    destruct (get_uid (props_of_list (tprops t))) as [u|].
+    + destruct (mem u used).
+      * destruct (settle (sadd nu used) (nu + 1) (List.map (tmap (cpf phi g)) L)) as [asg1 nu1] eqn:E.
+        inversion H; subst asg nu1. split; [apply lookup_upd_eq|].
+        apply (Plan_psi_ext (fun n => lookup n asg1)); [intros n Hn; symmetry; apply lookup_upd_neq; lia|].
+        eapply IH; eassumption.
+      * split; [eapply Hfresh; exact H|]. eapply IH; eassumption.
+    + split; [eapply Hfresh; exact H|]. eapply IH; eassumption.
+Qed.
+
+(* ---- the properties and UniqueIds of the copies ---- *)
+
+Definition cprops (psi : ref -> option N) (phi : ref -> ref) (x : ref) (ps : props) : props :=
+  match psi (phi x) with Some u => upd UIDKEY (PUid u) (props_of_list ps) | None => props_of_list ps end.
+
+Lemma get_uid_cprops psi phi x ps :
+  get_uid (cprops psi phi x ps) = match psi (phi x) with Some u => Some u | None => get_uid (props_of_list ps) end.
+Proof. unfold cprops. destruct (psi (phi x)); [apply get_uid_upd|reflexivity]. Qed.
+
+Lemma flat_map_map {A B C} (f : B -> list C) (g : A -> B) l : flat_map f (List.map g l) = flat_map (fun x => f (g x)) l.
+Proof. induction l as [|a l IH]; cbn; [reflexivity|now rewrite IH]. Qed.
+
+Lemma Plan_uids psi phi L : forall used nu nr nu',
+  numbered phi nr L -> Plan psi used nu nr L nu' ->
+  (forall u, mem u used = true -> u < nu) ->
+  (forall t u, In t L -> get_uid (props_of_list (tprops t)) = Some u -> u < nu) ->
+  NoDup (flat_map (fun t => ruid (tmap (cpf phi (cprops psi phi)) t)) L) /\
+  (forall u, In u (flat_map (fun t => ruid (tmap (cpf phi (cprops psi phi)) t)) L) -> mem u used = false /\ u < nu').
+Proof.
+  induction L as [|t L IH]; intros used nu nr nu' Hnum HP Hused Hsrc; cbn [flat_map].
+  - split; [constructor|intros u []].
+  - destruct Hnum as [Hn1 Hn2]. cbn [Plan] in HP.
+    assert (Hsrc' : forall t' u, In t' L -> get_uid (props_of_list (tprops t')) = Some u -> u < nu).
+    { intros t' u Ht'. apply Hsrc. right. exact Ht'. }
+    unfold ruid at 1 3. rewrite tprops_tmap, get_uid_cprops, Hn1.
+    destruct (get_uid (props_of_list (tprops t))) as [u|] eqn:Eu.
+    + pose proof (Hsrc t u (or_introl eq_refl) Eu) as Hu.
+      destruct (mem u used) eqn:Em; destruct HP as [Hpsi HP]; rewrite Hpsi.
+      * pose proof (Plan_mono _ _ _ _ _ _ HP) as Hmono.
+        destruct (IH (sadd nu used) (nu + 1) (nr + 1) nu' Hn2 HP) as [Hnd Hall].
+        { intros u0. rewrite mem_sadd. intros H. apply orb_true_iff in H. destruct H as [H|H].
+          - apply N.eqb_eq in H. lia.
+          - apply Hused in H. lia. }
+        { intros t' u0 Ht' E. pose proof (Hsrc' t' u0 Ht' E). lia. }
+        assert (Hnu : mem nu used = false).
+        { destruct (mem nu used) eqn:E; [|reflexivity]. apply Hused in E. lia. }
+        cbn [app]. split.
+        -- constructor; [|exact Hnd]. intros Hin. apply Hall in Hin. destruct Hin as [Hin _].
+           rewrite mem_sadd, N.eqb_refl in Hin. discriminate.
+        -- intros u0 [H|H]; [subst u0; split; [exact Hnu|lia]|].
+           apply Hall in H. destruct H as [H1 H2]. rewrite mem_sadd in H1. apply orb_false_iff in H1.
+           split; [exact (proj2 H1)|exact H2].
+      * pose proof (Plan_mono _ _ _ _ _ _ HP) as Hmono.
+        destruct (IH (sadd u used) nu (nr + 1) nu' Hn2 HP) as [Hnd Hall].
+        { intros u0. rewrite mem_sadd. intros H. apply orb_true_iff in H. destruct H as [H|H].
+          - apply N.eqb_eq in H. lia.
+          - apply Hused in H. exact H. }
+        { exact Hsrc'. }
+        cbn [app]. split.
+        -- constructor; [|exact Hnd]. intros Hin. apply Hall in Hin. destruct Hin as [Hin _].
+           rewrite mem_sadd, N.eqb_refl in Hin. discriminate.
+        -- intros u0 [H|H]; [subst u0; split; [exact Em|lia]|].
+           apply Hall in H. destruct H as [H1 H2]. rewrite mem_sadd in H1. apply orb_false_iff in H1.
+           split; [exact (proj2 H1)|exact H2].
+    + destruct HP as [Hpsi HP]. rewrite Hpsi. cbn [app]. eapply IH; eassumption.
+Qed.
+
+(* ---- subtrees and the entries they contribute ---- *)
+
+Definition sbp (i i' : inst) : Prop :=
+  i_children i = i_children i' /\ i_name i = i_name i' /\ i_class i = i_class i' /\ i_props i = i_props i'.
+
+Lemma sbp_refl i : sbp i i.
+Proof. repeat split. Qed.
+
+Lemma sbp_trans i1 i2 i3 : sbp i1 i2 -> sbp i2 i3 -> sbp i1 i3.
+Proof. unfold sbp. intros [A [B [C D]]] [A' [B' [C' D']]]. repeat split; congruence. Qed.
+
+Lemma sbp_tinst p p' t : sbp (tinst p t) (tinst p' t).
+Proof. destruct t. repeat split. Qed.
+
+Lemma tflat_reparent p p' t x i : In (x, i) (tflat p t) -> exists i', In (x, i') (tflat p' t) /\ sbp i i'.
+Proof.
+  rewrite !tflat_unfold. intros [H|H].
+  - inversion H; subst. exists (tinst p' t). split; [left; reflexivity|apply sbp_tinst].
+  - exists i. split; [right; exact H|apply sbp_refl].
+Qed.
+
+Lemma tfind_sub r t : forall s p q, tfind r t = Some s ->
+  troot s = r /\ forall x i, In (x, i) (tflat q s) -> exists i', In (x, i') (tflat p t) /\ sbp i i'.
+Proof.
+  induction t as [x0 n c ps kids IH] using tree_ind'. intros s p q H. rewrite tfind_eq in H.
+  destruct (N.eqb x0 r) eqn:E.
+  - apply N.eqb_eq in E. inversion H; subst s. split; [exact E|]. intros x i Hin. eapply tflat_reparent. exact Hin.
+  - clear E.
+    assert (G : troot s = r /\ forall x i, In (x, i) (tflat q s) ->
+                exists i', In (x, i') (flat_map (tflat x0) kids) /\ sbp i i').
+    { induction IH as [|k ks Hk _ IHk]; cbn [ffind] in H; [discriminate|].
+      destruct (tfind r k) as [s'|] eqn:Ek.
+      + inversion H; subst s'. destruct (Hk s x0 q eq_refl) as [H1 H2]. split; [exact H1|].
+        intros x i Hin. destruct (H2 x i Hin) as [i' [Hin' Hs]]. exists i'. split; [|exact Hs].
+        cbn [flat_map]. apply in_or_app. left. exact Hin'.
+      + destruct (IHk H) as [H1 H2]. split; [exact H1|]. intros x i Hin.
+        destruct (H2 x i Hin) as [i' [Hin' Hs]]. exists i'. split; [|exact Hs].
+        cbn [flat_map]. apply in_or_app. right. exact Hin'. }
+    destruct G as [H1 H2]. split; [exact H1|]. intros x i Hin.
+    destruct (H2 x i Hin) as [i' [Hin' Hs]]. exists i'. split; [|exact Hs].
+    rewrite tflat_eq. right. exact Hin'.
+Qed.
+
+Lemma ffind_sub r ts : forall s p q, ffind r ts = Some s ->
+  troot s = r /\ forall x i, In (x, i) (tflat q s) -> exists i', In (x, i') (flat_map (tflat p) ts) /\ sbp i i'.
+Proof.
+  induction ts as [|t ts IH]; intros s p q H; cbn [ffind] in H; [discriminate|].
+  destruct (tfind r t) as [s'|] eqn:Et.
+  - inversion H; subst s'. destruct (tfind_sub r t s p q Et) as [H1 H2]. split; [exact H1|].
+    intros x i Hin. destruct (H2 x i Hin) as [i' [Hin' Hs]]. exists i'. split; [|exact Hs].
+    cbn [flat_map]. apply in_or_app. left. exact Hin'.
+  - destruct (IH s p q H) as [H1 H2]. split; [exact H1|]. intros x i Hin.
+    destruct (H2 x i Hin) as [i' [Hin' Hs]]. exists i'. split; [|exact Hs].
+    cbn [flat_map]. apply in_or_app. right. exact Hin'.
+Qed.
+
+Lemma In_trefs_entry p t x : In x (trefs t) -> exists i, In (x, i) (tflat p t).
+Proof.
+  intros H. rewrite <- (keys_tflat p t) in H. unfold keys in H. apply in_map_iff in H.
+  destruct H as [[x' i] [Hx Hin]]. cbn in Hx. subst x'. exists i. exact Hin.
+Qed.
+
+Lemma find_all_spec rs ts : forall subs, find_all rs ts = Some subs ->
+  List.map troot subs = rs /\ length subs = length rs /\
+  forall s, In s subs -> forall p q x i, In (x, i) (tflat q s) ->
+    exists i', In (x, i') (flat_map (tflat p) ts) /\ sbp i i'.
+Proof.
+  induction rs as [|r rs IH]; intros subs H; cbn [find_all] in H.
+  - inversion H; subst. repeat split. intros s [].
+  - destruct (ffind r ts) as [s0|] eqn:E; [|discriminate].
+    destruct (find_all rs ts) as [l|]; [|discriminate]. inversion H; subst subs.
+    destruct (IH l eq_refl) as [H1 [H2 H3]]. destruct (ffind_sub r ts s0 rnone rnone E) as [H4 _].
+    cbn [List.map length]. split; [congruence|]. split; [congruence|].
+    intros s [Hs|Hs] p q x i Hin.
+    + subst s. exact (proj2 (ffind_sub r ts s0 p q E) x i Hin).
+    + exact (H3 s Hs p q x i Hin).
+Qed.
